@@ -87,6 +87,15 @@ pub fn verify(i: usize, token: &str, key: &DecodingKey, alg: Algorithm) -> bool 
     }
 }
 
+/// the primitive without the family check (what `crypto::verify` does in the real crate)
+pub fn verify_raw(i: usize, token: &str, key: &DecodingKey, alg: Algorithm) -> bool {
+    unsafe {
+        let verdict = key.id != NO_KEY && TOKENS[i].valid_under == key.id;
+        VERIFY_CALLS.push(VerifyCall { token: token.to_string(), key_family: key.family, key_id: key.id, alg, verdict });
+        verdict
+    }
+}
+
 pub fn sign(header: &Header, claims: Value, key: &EncodingKey) -> String {
     unsafe {
         let n = SIGN_CALLS.len();
